@@ -184,6 +184,10 @@ def _np_state_equal(s1, s2):
     return s1[0] == s2[0] and np.array_equal(s1[1], s2[1]) and s1[2:] == s2[2:]
 
 
+def _enter_thread():
+    _tls.depth = 1      # calls made by the routine inside the worker thread are not depth-0 calls
+
+
 def _wrap(name, fn):
     try:
         sig = inspect.signature(fn)
@@ -255,10 +259,19 @@ def _wrap(name, fn):
                 g_py = pyrandom.getstate()
             exc = None
             t_call = time.perf_counter()
+            threaded = (hist is not None and history._pick(name, hn, 't') % 4 == 0 and name in hist.cost and
+                        hist.cost[name] < 0.02 and ('thread', name) not in hist.banned)
             try:
-                result = fn(*args, **kwargs)
+                if threaded:
+                    result, exc = hist.in_thread(name, fn, args, kwargs, _enter_thread)
+                    if exc is not None and not isinstance(exc, Exception):
+                        raise exc
+                else:
+                    result = fn(*args, **kwargs)
             except CaseTimeout:
                 raise
+            except history.PrimerTimeout:
+                raise CaseTimeout()
             except Exception as e:  # noqa
                 exc = e
             if hist is not None:
